@@ -97,6 +97,7 @@ type wConfig struct {
 	Root       bool  `json:"root,omitempty"`  // user 0 logs in at root level
 	MaxSubs    int   `json:"maxsubs,omitempty"`
 	NoPush     bool  `json:"nopush,omitempty"`
+	Vmail      int   `json:"vmail,omitempty"` // the harness validator (validator_test.go): 1 configured, 2 confirmed addresses become tags, 3 also required of authenticated accounts
 	Calls      bool  `json:"calls,omitempty"`
 	CallTimeout int  `json:"calltimeout,omitempty"`
 	CallsOffIce bool `json:"callsoffice,omitempty"` // calls are not enabled but the config lists ICE servers
@@ -263,6 +264,13 @@ func wBoot(cfg wConfig) *wWorld {
 	globals.validators = nil
 	globals.authValidators = nil
 	globals.validatorClientConfig = nil
+	if cfg.Vmail > 0 {
+		wUseValidator(false, cfg.Vmail >= 2)
+	}
+	if cfg.Vmail == 3 {
+		// ... and authenticated accounts must have one (without a required method {set cred resp=} confirms nothing)
+		globals.authValidators = map[auth.Level][]string{auth.LevelAuth: {wValidatorName}}
+	}
 	globals.immutableTagNS = map[string]bool{}
 	globals.maskedTagNS = map[string]bool{}
 	globals.permanentAccounts = false
@@ -299,6 +307,10 @@ func wBoot(cfg wConfig) *wWorld {
 		u.Public = map[string]any{"fn": fmt.Sprintf("user%d", i)}
 		if _, err := store.Users.Create(u, nil); err != nil {
 			panic("user create: " + err.Error())
+		}
+		if cfg.Vmail == 3 {
+			// every account starts with a confirmed address of a domain the validator accepts no new ones from
+			store.Users.UpsertCred(&types.Credential{User: u.Uid().String(), Method: wValidatorName, Value: fmt.Sprintf("u%d@example.com", i), Done: true})
 		}
 		lvl := auth.LevelAuth
 		if i == 0 && cfg.Root {
